@@ -518,16 +518,16 @@ def msgset_unit(u):
     # afkak encode o afkak decode = identity on messages (plain sets with explicit offsets, and
     # create_message_set for every codec / magic)
     if u["slice"] == 0:
-        for magic in (0, 1):
+        for magic, ts0 in ((0, None), (1, 12345), (1, 0), (1, -1), (1, 2 ** 63 - 1), (1, 1)):
             for base in (0, 1000, 2 ** 62):
                 for kvs in itertools.product(itertools.product(KV, KV), repeat=2):
                     st.evaluations += 1
-                    ms = [Message(magic, 0, k, v, (12345 if magic else None)) for k, v in kvs]
+                    ms = [Message(magic, 0, k, v, ts0) for k, v in kvs]
                     enc = K._encode_message_set(ms, offset=base)
                     back = list(K._decode_message_set_iter(enc))
                     got = [(om.offset, om.message.magic, om.message.attributes, om.message.key, om.message.value,
                             om.message.timestamp) for om in back]
-                    want = [(base + i, magic, 0, k, v, (12345 if magic else None)) for i, (k, v) in enumerate(kvs)]
+                    want = [(base + i, magic, 0, k, v, ts0) for i, (k, v) in enumerate(kvs)]
                     if got != want and "id" not in sigs:
                         sigs.add("id")
                         st.violations.append({"oracle": "encode-decode-identity",
